@@ -317,10 +317,14 @@ class MultipartEncoder:
             self.state = State.DATA_START
             return data
         elif isinstance(event, Data) and self.state == State.DATA_START:
-            self.state = State.DATA
             if len(event.data) > 0:
+                self.state = State.DATA
                 return b"\r\n" + event.data
             else:
+                # The line break that starts the body is only written
+                # along with the first data, which may still follow.
+                if not event.more_data:
+                    self.state = State.DATA
                 return event.data
         elif isinstance(event, Data) and self.state == State.DATA:
             return event.data
